@@ -3348,11 +3348,19 @@ static void scan_globals(void) {
       continue;
     }
 
-    // Find another definition of the same identifier.
+    // Find another definition of the same identifier. Of several
+    // tentative definitions, the last one in the list is kept.
     Obj *var2 = globals;
-    for (; var2; var2 = var2->next)
-      if (var != var2 && var2->is_definition && !strcmp(var->name, var2->name))
+    bool passed = false;
+    for (; var2; var2 = var2->next) {
+      if (var == var2) {
+        passed = true;
+        continue;
+      }
+      if (var2->is_definition && !strcmp(var->name, var2->name) &&
+          (!var2->is_tentative || passed))
         break;
+    }
 
     // If there's another definition, the tentative definition
     // is redundant
